@@ -79,12 +79,12 @@ Fixpoint merge_phase1 (w : list lcell) (new : list label) : list lcell :=
 Definition nonempty_val (x : lcell) : bool := negb (String.eqb (snd (snd x)) "").
 
 (* MergeLabels: (result, what the served slice shows afterwards) *)
-Definition merge_labels (served : list lcell) (new : list label) : list label * list lcell :=
+Definition merge_labels (served : list lcell) (cap : nat) (new : list label) : list label * list lcell :=
   let n := length served in
   let w := merge_phase1 served new in
   let res := filter nonempty_val w in
   let served' :=
-    if Nat.leb (length w) (cap_of n)
+    if Nat.leb (length w) cap
     then firstn n (res ++ skipn (length res) w)     (* compaction ran over the served backing array *)
     else firstn n w in                               (* append re-allocated: only struct writes are shared *)
   (labels_of res, served').
@@ -92,7 +92,10 @@ Definition merge_labels (served : list lcell) (new : list label) : list label * 
 Record meta := Meta { m_addr : string; m_state : sstate; m_pd : bool; m_labels : list label; m_ver : ver }.
 
 Record sstore := SStore {
-  s_addr : string; s_state : sstate; s_pd : bool; s_cells : list lcell; s_ver : ver;
+  s_addr : string; s_state : sstate; s_pd : bool; s_cells : list lcell;
+  s_cap : nat;                 (* capacity of the served label slice: next power of two when it was built by append
+                                  (Unmarshal, the request), exactly its length after proto.Clone *)
+  s_ver : ver;
   s_lw : Z; s_rw : Z;          (* leaderWeight, regionWeight (the harness uses integral weights) *)
   s_rcf : Z;                   (* StoreInfo.regionCount, refreshed by region heartbeats *)
   s_hbp : bool;                (* lastPersistTime is set (NeedPersist is false for 5 minutes) *)
@@ -216,14 +219,14 @@ Definition put_impl (s : state) (p : payload) (force : bool) (f : fault) : state
     if dup_addr s (p_id p) (p_addr p) then (s, RDupAddr) else
     match sv s (p_id p) with
     | None =>
-        let x := SStore (p_addr p) (p_state p) (p_pd p) (renumber (p_labels p)) v 1 1 0 false false in
+        let x := SStore (p_addr p) (p_state p) (p_pd p) (renumber (p_labels p)) (cap_of (length (p_labels p))) v 1 1 0 false false in
         let '(s1, ok) := put_locked s (p_id p) x f 0 in (s1, if ok then ROk else RStorage)
     | Some old =>
-        let '(ls, cells') := if force then (p_labels p, s_cells old) else merge_labels (s_cells old) (p_labels p) in
+        let '(ls, cells') := if force then (p_labels p, s_cells old) else merge_labels (s_cells old) (s_cap old) (p_labels p) in
         (* the in-place effect of MergeLabels on the served store happens before anything can fail *)
-        let old' := SStore (s_addr old) (s_state old) (s_pd old) cells' (s_ver old) (s_lw old) (s_rw old) (s_rcf old) (s_hbp old) (s_hb old) in
+        let old' := SStore (s_addr old) (s_state old) (s_pd old) cells' (s_cap old) (s_ver old) (s_lw old) (s_rw old) (s_rcf old) (s_hbp old) (s_hb old) in
         let s0 := set_served s (p_id p) old' in
-        let x := SStore (p_addr p) (s_state old) (s_pd old) (renumber ls) v (s_lw old) (s_rw old) (s_rcf old) (s_hbp old) (s_hb old) in
+        let x := SStore (p_addr p) (s_state old) (s_pd old) (renumber ls) (length ls) v (s_lw old) (s_rw old) (s_rcf old) (s_hbp old) (s_hb old) in
         let '(s1, ok) := put_locked s0 (p_id p) x f 0 in (s1, if ok then ROk else RStorage)
     end
   end.
@@ -239,7 +242,7 @@ Definition do_labels (s : state) (id : Z) (ls : list label) (force : bool) (f : 
   end.
 
 Definition with_state (x : sstore) (st : sstate) (pd : bool) : sstore :=
-  SStore (s_addr x) st pd (renumber (labels_of (s_cells x))) (s_ver x) (s_lw x) (s_rw x) (s_rcf x) (s_hbp x) (s_hb x).
+  SStore (s_addr x) st pd (renumber (labels_of (s_cells x))) (length (s_cells x)) (s_ver x) (s_lw x) (s_rw x) (s_rcf x) (s_hbp x) (s_hb x).
 
 Definition do_remove (s : state) (id : Z) (pd : bool) (f : fault) : state * res :=
   match sv s id with
@@ -297,7 +300,7 @@ Definition do_weight (s : state) (id lw rw : Z) (f : fault) : state * res :=
       let '(a1, ok1) := wr f id 1 in
       let s1 := if a1 then write_rw s0 id rw else s0 in
       if negb ok1 then (s1, RStorage) else
-      let x' := SStore (s_addr x) (s_state x) (s_pd x) (renumber (labels_of (s_cells x))) (s_ver x) lw rw (s_rcf x) (s_hbp x) (s_hb x) in
+      let x' := SStore (s_addr x) (s_state x) (s_pd x) (renumber (labels_of (s_cells x))) (length (s_cells x)) (s_ver x) lw rw (s_rcf x) (s_hbp x) (s_hb x) in
       let '(s2, ok) := put_locked s1 id x' f 2 in (s2, if ok then ROk else RStorage)
   end.
 
@@ -334,7 +337,7 @@ Definition do_heartbeat (s : state) (id : Z) (f : fault) : state * res :=
         (* NeedPersist: only when lastPersistTime is unset; a failed SaveStore is only logged *)
         let '(applied, ok) := if s_hbp x then (false, true) else wr f id 0 in
         let s1 := if applied then write_meta s id (meta_of x) else s in
-        let x' := SStore (s_addr x) (s_state x) (s_pd x) (renumber (labels_of (s_cells x))) (s_ver x)
+        let x' := SStore (s_addr x) (s_state x) (s_pd x) (renumber (labels_of (s_cells x))) (length (s_cells x)) (s_ver x)
                          (s_lw x) (s_rw x) (s_rcf x) (s_hbp x || ok) true in
         let s2 := roll_add (set_served s1 id x') id in      (* hotStat.Observe *)
         (* hotStat.FilterUnhealthyStore: `cluster.GetStore(storeID).IsTombstone()` for every key of
@@ -348,7 +351,7 @@ Definition do_heartbeat (s : state) (id : Z) (f : fault) : state * res :=
 
 Definition refresh_rcf (s : state) (id : Z) : state :=
   match sv s id with
-  | Some x => set_served s id (SStore (s_addr x) (s_state x) (s_pd x) (s_cells x) (s_ver x) (s_lw x) (s_rw x) (tree_count s id) (s_hbp x) (s_hb x))
+  | Some x => set_served s id (SStore (s_addr x) (s_state x) (s_pd x) (s_cells x) (s_cap x) (s_ver x) (s_lw x) (s_rw x) (tree_count s id) (s_hbp x) (s_hb x))
   | None => s
   end.
 Definition do_region (s : state) (r : Z) (stores : list Z) : state :=
@@ -397,7 +400,7 @@ Definition run_op (s : state) (o : op) : state * obs :=
 (* the state right after a leader loaded a storage that holds exactly one store *)
 Definition boot (cv : ver) (p : payload) : state :=
   let v := match p_ver p with Some v => v | None => (0, 0, 0) end in
-  State [(p_id p, SStore (p_addr p) (p_state p) (p_pd p) (renumber (p_labels p)) v 1 1 0 false false)]
+  State [(p_id p, SStore (p_addr p) (p_state p) (p_pd p) (renumber (p_labels p)) (cap_of (length (p_labels p))) v 1 1 0 false false)]
         [(p_id p, Meta (p_addr p) (p_state p) (p_pd p) (p_labels p) v)] [] [] [] cv [p_id p] false.
 
 (* ---------- equality of observations ---------- *)
@@ -517,6 +520,15 @@ Definition mon_step (past : list op) (rg : amap (list Z)) (o : op) (prev cur : o
        match vget ps id with
        | Some x => if sstate_eqb (v_state x) Tombstone && negb (res_eqb (o_res cur) RGrpcTombstone)
                    then ["C14:tombstone-heartbeat-accepted"] else []
+       | None => []
+       end
+   | _ => []
+   end) ++
+  (* 2b a successful removal with physically-destroyed records the flag (it is what later refuses UpStore) *)
+  (match o with
+   | ORemove id true _ =>
+       match vget cs id with
+       | Some y => if res_eqb (o_res cur) ROk && negb (v_pd y) then ["C14:destroyed-flag-not-recorded"] else []
        | None => []
        end
    | _ => []
